@@ -78,7 +78,12 @@ fn sun_grid(cw: &mut CaseWriter, step: f64, rng: &mut Rng, samples_for_model: us
                     if da > worst_alt.0 {
                         worst_alt = (da, json!({"lat": lat, "decl": decl, "ha": ha, "impl": p.altitude, "ref": r.alt}));
                     }
-                    let dz = angdiff(p.azimuth as f64, r.az);
+                    // the azimuth is an arcsine of cos(decl) sin(ha) / cos(alt) computed in f32: an error d in that quotient
+                    // (a few ulps, amplified by 1 / cos(alt) near the zenith) moves the angle by d / |cos(az)|, and by up to
+                    // sqrt(2 d) where the azimuth is +-90 degrees (the arcsine's vertical tangent); allow for that
+                    let d_q = 3.0e-6 / rad(r.alt).cos().max(1e-3);
+                    let cond = (d_q / rad(r.az).cos().abs().max(1e-12)).min((2.0 * d_q).sqrt()).to_degrees();
+                    let dz = (angdiff(p.azimuth as f64, r.az) - cond).max(0.0);
                     if dz > 0.1 {
                         n_az_bad += 1;
                     }
